@@ -7,6 +7,7 @@
 //!   (internal) worker | exec-case | gen-case
 
 mod alloc;
+mod c22;
 mod c29;
 mod common;
 mod runner;
@@ -20,7 +21,7 @@ use runner::*;
 static GLOBAL: alloc::Tracking = alloc::Tracking;
 
 fn props() -> Vec<Box<dyn Property>> {
-    vec![Box::new(c29::C29)]
+    vec![Box::new(c22::C22), Box::new(c29::C29)]
 }
 
 fn find(id: &str) -> Option<Box<dyn Property>> {
@@ -105,5 +106,6 @@ fn main() {
             2
         }
     };
+    c22::cleanup_scratch();
     std::process::exit(code);
 }
